@@ -275,6 +275,7 @@ def slim(ev):
                 "obs": slim_obs(ev["obs"], keys=False)}
     if e == "Final":
         return {"ev": e, "case": ev["case"], "equal": ev["equal"],
+                "equalrestart": ev.get("equalrestart", True),
                 "settledok": ev["settledok"],
                 "obs": slim_obs(ev["obs"], keys=False)}
     return None
@@ -394,7 +395,10 @@ def describe(case, clause):
     elif clause == "TwinEquivalence":
         fo = fin["obs"]
         txt += (f"final state differs from the fault-free twin: "
-                f"views equal={fin['equal']} rrdp=content:{fo['rrdpeq']} "
+                f"views equal={fin['equal']} after a restart="
+                f"{fin.get('equalrestart', True)} "
+                f"{fin.get('diffrestart', [])[:3] if fin['equal'] else ''} "
+                f"rrdp=content:{fo['rrdpeq']} "
                 f"rsync=content:{fo['rsynceq']} settled="
                 f"{fin['settledok']} objsbad={fo['objsbad']} "
                 f"problems={fo['problems'][:2]} diff={fin['diff'][:4]}"
